@@ -31,7 +31,7 @@ for pid in ALL:
     })
 man = {
     "version": 1,
-    "setup_cmd": "cd lean && lake build",
+    "setup_cmd": "./tools/setup.sh",
     "hooks": {
         "guard": "PYDOCTOR_VERIF",
         "enable": "no source hooks: the harness imports pydoctor from /repo's working tree in-process (PYTHONPATH=/repo) and wraps methods from outside",
